@@ -80,9 +80,18 @@ def eventsFinal (c : Ctx) (r : Refine) (env : Env) : List Cmd → List Act → L
 def stable (env : Env) : Bool :=
   (env.addr.all fun e => lookup env.addr e.1 == some e.2) && (env.idx.all fun e => lookup env.idx e.1 == some e.2)
 
-/-- tables whose values compare equal are the same bytes (in particular the same number of bytes) -/
+/-- tables the pass takes for equivalent are the same bytes (in particular the same number of bytes). For the code as it
+    stands "equivalent" is "values compare equal" — and the statement can be false (a uint8 and an int32 table with the
+    same numbers). With `widthAware` (C03-10) equivalent is "equal values and equal storage size", and the statement is
+    what is assumed of real tensors: same numbers in the same element width are the same bytes. -/
 def EqualValuesEqualBytes (c : Ctx) (r : Refine) : Prop :=
-  ∀ t u, c.vals t = c.vals u → c.size t = c.size u ∧ r.content t = r.content u
+  ∀ t u, c.vals t = c.vals u → (c.widthAware = true → c.size t = c.size u) → c.size t = c.size u ∧ r.content t = r.content u
+
+/-- every table DMA loads the table its own pass's operation reads (what the command stream generator emits) -/
+def DmaOwn (r : Refine) (cmds : List Cmd) : Prop := ∀ p t, Cmd.lutDma p t ∈ cmds → r.passTab p = some t
+
+def dmaOwnB (r : Refine) (cmds : List Cmd) : Bool :=
+  cmds.all fun | .lutDma p t => r.passTab p == some t | _ => true
 
 def PassesAgree (c : Ctx) (r : Refine) : Prop := ∀ p, c.passLut p = (r.passTab p).isSome
 
